@@ -1,0 +1,137 @@
+//go:build verif
+
+package regexp2
+
+// Verification hooks (build tag verif): read-only accessors and an accelerator-free scan used by
+// the correspondence harness under /verif. Nothing here is compiled into normal builds.
+
+import (
+	"math"
+	"time"
+
+	"github.com/dlclark/regexp2/v2/syntax"
+)
+
+// VerifTextpos is the position the next search continues from.
+func (m *Match) VerifTextpos() int { return m.textpos }
+
+// VerifCode returns the compiled program.
+func (re *Regexp) VerifCode() *syntax.Code { return re.code }
+
+// VerifQuickCode returns the bool-only program (nil when identical to the full one).
+func (re *Regexp) VerifQuickCode() *syntax.Code { return re.quickCode }
+
+// VerifHasStringPrefixFilter reports whether a raw-string prefilter was built.
+func (re *Regexp) VerifHasStringPrefixFilter() bool { return re.stringPrefixFilter != nil }
+
+func (r *Runner) verifSetup(re *Regexp, rt []rune, textstart int) {
+	r.timeout = re.MatchTimeout
+	r.ignoreTimeout = (time.Duration(math.MaxInt64) == re.MatchTimeout)
+	r.debug = false
+	r.Runtextstart = textstart
+	r.Runtext = rt
+	r.Runtextend = len(rt)
+}
+
+// VerifNaiveScan attempts the compiled program at every position in scan order starting at
+// start (one further after an empty previous match), with no candidate finder, no prefix
+// filter, no minimum-length cut-off and no bump-along shortcut. origin is what \G is bound to.
+func (re *Regexp) VerifNaiveScan(rt []rune, start, origin, previousMatchLength int) (*Match, error) {
+	r := re.getRunner()
+	defer re.putRunner(r)
+	r.verifSetup(re, rt, origin)
+	stoppos, bump := len(rt), 1
+	if re.RightToLeft() {
+		stoppos, bump = 0, -1
+	}
+	pos := start
+	r.initMatch(newMatchText(rt))
+	if previousMatchLength == 0 {
+		if pos == stoppos {
+			r.tidyMatch(true)
+			return nil, nil
+		}
+		pos += bump
+	}
+	r.startTimeoutWatch()
+	for {
+		r.Runtextpos = pos
+		if err := executeDefault(r); err != nil {
+			return nil, err
+		}
+		if r.runmatch.matchcount[0] > 0 {
+			return r.tidyMatch(false), nil
+		}
+		r.Runtrackpos = len(r.runtrack)
+		r.Runstackpos = len(r.runstack)
+		r.runcrawlpos = len(r.runcrawl)
+		if pos == stoppos {
+			r.tidyMatch(true)
+			return nil, nil
+		}
+		pos += bump
+	}
+}
+
+// VerifAttemptAt runs the compiled program once, anchored at pos.
+func (re *Regexp) VerifAttemptAt(rt []rune, pos, origin int) (*Match, error) {
+	r := re.getRunner()
+	defer re.putRunner(r)
+	r.verifSetup(re, rt, origin)
+	r.initMatch(newMatchText(rt))
+	r.startTimeoutWatch()
+	r.Runtextpos = pos
+	if err := executeDefault(r); err != nil {
+		return nil, err
+	}
+	if r.runmatch.matchcount[0] > 0 {
+		return r.tidyMatch(false), nil
+	}
+	r.tidyMatch(true)
+	return nil, nil
+}
+
+// VerifFindFirstChar runs one turn of the scan loop's candidate search from pos: the
+// minimum-length cut-off, then the candidate finder. cut is true when the cut-off ended the scan.
+func (re *Regexp) VerifFindFirstChar(rt []rune, pos, origin int) (cut bool, found bool, newpos int) {
+	r := re.getRunner()
+	defer re.putRunner(r)
+	r.verifSetup(re, rt, origin)
+	r.initMatch(nil)
+	r.Runtextpos = pos
+	minRequiredLength := 0
+	if r.code != nil && r.code.FindOptimizations != nil {
+		minRequiredLength = r.code.FindOptimizations.MinRequiredLength
+	}
+	if minRequiredLength > 0 {
+		if r.code.RightToLeft {
+			if r.Runtextpos < minRequiredLength {
+				return true, false, pos
+			}
+		} else if r.Runtextend-r.Runtextpos < minRequiredLength {
+			return true, false, pos
+		}
+	}
+	ff := re.findFirstChar
+	if ff == nil {
+		ff = findFirstCharDefault
+	}
+	found = ff(r)
+	return false, found, r.Runtextpos
+}
+
+// VerifTrackCap reports the backtracking-stack capacity of an interpreter state taken from the pool
+// (0 when the pool hands out a fresh one).
+func (re *Regexp) VerifTrackCap() int {
+	r := re.getRunner()
+	defer re.putRunner(r)
+	return len(r.runtrack)
+}
+
+// VerifStringPrefixFilter runs the raw-string prefilter (ok=false, idx=-2 when there is none).
+func (re *Regexp) VerifStringPrefixFilter(s string, startAt int) (idx int, ok bool) {
+	if re.stringPrefixFilter == nil {
+		return -2, false
+	}
+	return re.stringPrefixFilter(s, startAt)
+}
